@@ -1,3 +1,4 @@
+pub mod c04;
 pub mod c09;
 pub mod c13;
 pub mod c14;
